@@ -32,6 +32,7 @@ def build():
     interp_msg = z3.Function("interp_message", PT.z3(), z3.StringSort())
     xparse_out = z3.Function("xpath_parse_outcome", z3.StringSort(), z3.IntSort())
     xparse_res = z3.Function("xpath_parse_result", z3.StringSort(), EL.z3())
+    rev_el = z3.Function("reversed_elements", EL.z3(), EL.z3())
     accepts = lambda t: z3.And(parse_out(t) == 0, interp_out(parse_tree(t)) == 0)
     sf = world.spec_fns
     sf["accepts"] = lambda t: VBool(accepts(t.term))
@@ -96,8 +97,8 @@ def build():
         if isinstance(func, VPy) and func.obj == ("setattr",) and isinstance(args[0], VU) and args[0].sort == XP:
             m.ghost_env["xp_" + args[1].obj] = args[2]
             return NONE
-        if isinstance(func, VPy) and func.obj == ("builtin", "reversed") and isinstance(args[0], VU):
-            return args[0]
+        if isinstance(func, VPy) and func.obj == ("builtin", "reversed") and isinstance(args[0], VU) and args[0].sort == EL:
+            return EL.wrap(rev_el(args[0].term))        # the element list in the opposite order (opaque here; xpath_area names it rev_steps)
         if isinstance(func, VPy) and func.obj == ("builtin", "list") and isinstance(args[0], VU):
             return args[0]
         return NotImplemented
@@ -108,10 +109,15 @@ def build():
     world.class_parents["PatternDefInterpreter"] = []
     A = reg.add
     P = ["C17"]
-    A(Contract(f"{XM_}:ASTXpath.__init__", params={"self": "XPathObj", "xpath": "str"}, props=P,
+    sf["reversed_elements"] = lambda x: EL.wrap(rev_el(x.term))
+    sf["xparsed"] = lambda t: EL.wrap(xparse_res(z3.If(z3.PrefixOf(z3.StringVal("/"), t.term), t.term, z3.Concat(z3.StringVal("//"), t.term))))
+    A(Contract(f"{XM_}:ASTXpath.__init__", params={"self": "XPathObj", "xpath": "str"}, props=P + ["C07"],
                raises=[("ASTXpathDefinitionError", "not xaccepts(xpath)")],
+               ensures=["xp__elements_reversed == xparsed(old(xpath))", "xp__elements == reversed_elements(xp__elements_reversed)"],
                note="for arbitrary text: either returns (text accepted by parser + transformer) or raises ASTXpathDefinitionError -- no other exception escapes, "
-                    "whatever the parser raises and whichever lark exception subclass the handler receives; a path not starting with '/' is parsed as '//' + path"))
+                    "whatever the parser raises and whichever lark exception subclass the handler receives; a path not starting with '/' is parsed as '//' + path; on return _elements_reversed is what the "
+                    "parser + transformer produced for that text (the list match() walks upward) and _elements is the same list in the opposite order (the list findall() walks "
+                    "downward) -- the link between the two searches of C07"))
     CACHE = {"_MATCHER_CACHE": "Dict[str,Matcher]"}
     R2 = rec_sort("PatRes", [("matcher", OMAT), ("msg", STR)], tuple_like=True)
     RB = rec_sort("ValRes", [("ok", BOOL), ("msg", STR)], tuple_like=True)
